@@ -95,6 +95,9 @@ def check(repo, rep):
             if l.outcome != 'return' or l.value == ('c', None):
                 continue
             v = l.value
+            if v[0] == 'or' and len(v[1]) == 2 and v[1][1] == ('c', None):
+                rep.ob('read() returns None, never an empty bytes object (every returned value was tested non-empty)', True, W(l.node))     # `x or None`
+                continue
             ok = any(ct == v and tr for ct, tr, _ in l.conds)
             if not ok:
                 # len(v) >= 1 form
